@@ -39,14 +39,16 @@ CBlock1 == Obj("cblock", 0, 1, <<"coinbase">>, 1, 0, 0, 0)
 KSeg == Obj("kseg", 0, 0, <<"plain", "heightlocked", "nrd", "coinbase">>, 0, 1, 4, 2)
 RSeg == Obj("rseg", 0, 0, <<>>, 0, 1, 2, 1)
 OSeg == Obj("oseg", 0, 0, <<>>, 0, 2, 3, 1)
+BSeg == Obj("bseg", 0, 0, <<>>, 5, 0, 2, 1)
 BuiltAt(v) == {Built(15, Tx3, v), Built(14, Tx3, v), Built(15, Tx1, v), Built(11, Block1, v), Built(13, CBlock1, v),
-               Built(28, KSeg, v), Built(26, RSeg, v), Built(24, OSeg, v)}
+               Built(28, KSeg, v), Built(26, RSeg, v), Built(24, OSeg, v), Built(22, BSeg, v)}
 BuiltKinds == UNION {BuiltAt(v) : v \in Versions}
 BuiltSeqs == UNION {{<<Built(15, Tx3, v), Ping, Built(14, Tx3, v)>>, <<Built(11, Block1, v), Built(28, KSeg, v)>>,
                      <<HeadersF(33, 33, 0), Built(14, Tx1, v), Built(13, CBlock1, v), Ping>>,
-                     <<Built(24, OSeg, v), Built(26, RSeg, v), Unknown(250, 40), Built(15, Tx1, v)>>} : v \in Versions}
-Honest == FixedKinds \cup CountedKinds \cup HeadersKinds \cup ArchiveKinds \cup UnknownKinds
-            \cup MaxHonest \cup MixedHeaders \cup BuiltKinds
+                     <<Built(24, OSeg, v), Built(22, BSeg, v), Built(26, RSeg, v), Unknown(250, 40), Built(15, Tx1, v)>>} : v \in Versions}
+Honest0 == FixedKinds \cup CountedKinds \cup HeadersKinds \cup ArchiveKinds \cup UnknownKinds
+Honest1 == MaxHonest \cup MixedHeaders \cup BuiltKinds
+Honest == Honest0 \cup Honest1
 
 \* frames that must be refused ------------------------------------------------
 TAIL == 40   \* bytes following a refused header that must stay unread
@@ -107,7 +109,9 @@ Lead == {Ping, HeadersF(33, 33, 0), Archive(1), Unknown(99, 1), EmptyHeaders}
 
 SeqsOf(K, n) == [1..n -> K]
 Singles == SeqsOf(AllKinds, 1)
-Pairs == SeqsOf(Honest, 2)
+\* (the kinds added in round 4 are paired with the lead frames and, version by version, with each other)
+Pairs == SeqsOf(Honest0, 2) \cup {<<a, b>> : a \in Honest1, b \in Lead} \cup {<<b, a>> : a \in Honest1, b \in Lead}
+           \cup UNION {SeqsOf(BuiltAt(v), 2) : v \in Versions}
 AfterLead == {<<a, b>> : a \in Lead, b \in Refused0 \cup AtLimit \cup Trailing} \cup {<<Ping, b>> : b \in Refused1}
 AfterLeadFull == {<<a, b>> : a \in Lead, b \in Refused \cup AtLimit \cup Trailing}
 Deep == SeqsOf(Core, 3) \cup SeqsOf(Core, 4)
@@ -133,6 +137,9 @@ StreamsQuick == Singles \cup AfterLead \cup SeqsOf(Core, 2) \cup Deep3 \cup Arou
                   \cup BuiltSeqs \cup FullSeqs
 StreamsFull == Singles \cup Pairs \cup AfterLeadFull \cup Deep \cup AroundEmpty \cup MidRefusal
                   \cup BuiltSeqs \cup FullSeqs \cup AtLimitHeaders
+\* the subset on which per-action coverage is collected (MC_Codec_cov.cfg): every action taken here is
+\* taken in the exhaustive runs, whose stream sets contain this one
+StreamsCov == Singles \cup MidRefusal \cup SeqsOf(Core, 2)
 \* another network (MC_Codec_net_*.cfg: NetName, MaxBlockSize of that chain type; no block headers:
 \* their proof of work cannot be produced there)
 NetFrames == {Ping, Fixed(5, 4), PeerAddrsF(3, 3), Unknown(99, 1)}
